@@ -11,6 +11,10 @@ for p in selftest/mutants/*.patch; do
   out=$(WKV_NO_EVIDENCE=1 ./check "$prop" 2>&1); rc=$?
   git -C /repo apply -R "$PWD/$p"
   if echo "$out" | grep -q "load_failure"; then echo "INVALID $name: mutant does not compile"; fail=1
+  elif [ $rc -eq 1 ] && echo "$out" | grep -q "^VIOLATION property=$prop" && ! echo "$out" | grep -q '^FAILED'; then
+    # only engine problems (contract drift, clause errors): the mutant changed the shape the contract
+    # is written against - a legitimate alarm, but make sure the same problem is absent on the unchanged tree
+    echo "ok?  $name: flagged by engine problems only: $(echo "$out" | grep '^PROBLEM' | head -1 | cut -c1-160)"
   elif [ $rc -eq 1 ] && echo "$out" | grep -q "^VIOLATION property=$prop"; then
     echo "ok   $name: $(echo "$out" | grep -c '^VIOLATION') violation(s): $(echo "$out" | grep '^FAILED' | head -2 | cut -c8-90 | tr '\n' ';')"
   else
